@@ -13,6 +13,7 @@ pub mod c12;
 pub mod c13;
 pub mod c14;
 pub mod c15;
+pub mod c16;
 pub mod replay;
 
 use crate::report::Tier;
@@ -34,6 +35,7 @@ pub fn dispatch(prop: &str, tier: Tier) -> i32 {
         "C13" => c13::run(tier),
         "C14" => c14::run(tier),
         "C15" => c15::run(tier),
+        "C16" => c16::run(tier),
         _ => {
             println!("MACHINERY-ERROR: unknown property {}", prop);
             2
